@@ -215,7 +215,8 @@ pub fn j_numeric(pf: usize, x: f64, ts: TimeScale, out: &mut Local) {
     let exact_ns = sg * prod - anchor_ns;
     let approx = exact_ns as f64;
     let ulp_ns = crate::oracle::ulp::ulp_of(x.abs()) * unit as f64;
-    let tol = 8.0 * ulp_ns + 2.0;
+    // + 1 ns: the value is a float count of a unit, which C18 defines as truncated to the nanosecond
+    let tol = 8.0 * ulp_ns + 1.0;
     match r {
         Ok(Ok((gts, g))) => {
             if gts != ts {
